@@ -172,6 +172,13 @@ def run(ctx):
         labels = tuple(all(t.startswith("p") for t in d) for d in docs)
         for side in (pos, neg):
             cases.append({"docs": docs, "labels": labels, "query": tuple(rnd.choice(side) for _ in range(rnd.choice([60, 150, 400])))})
+    # extreme class balance: one document of one class against thousands of the other (priors down to 1/3001)
+    for n_major in ((40, 1500) if ctx.quick else (40, 400, 1500, 3000)):
+        for minority_positive in (True, False):
+            docs = tuple([("a",), ("a", "b"), ("b",)][i % 3] for i in range(n_major)) + (("b", "c"),)
+            labels = tuple([not minority_positive] * n_major + [minority_positive])
+            for q in (("a",), ("b", "c"), ("c", "a", "zz")):
+                cases.append({"docs": docs, "labels": labels, "query": q})
     stats, gen, dist = tlc_stats(cases)
     ctx.states += dist
     ctx.transitions += gen
